@@ -207,7 +207,7 @@ constraint_t make_constraint(vt::Rng& rng, int kind, tensor_size_t n, std::strin
 // ---- float oracles for arbitrary registered functions (environment predicates)
 struct oracle_t
 {
-    bool   gradOK{true}, convexOK{true}, valueSame{true};
+    bool   gradOK{true}, convexOK{true}, valueSame{true}, differentiable{false};
     double graderr{0}, convexgap{0};
 };
 
@@ -239,6 +239,24 @@ oracle_t generic_oracle(vt::Rng& rng, const function_t& f, bool check_grad)
         const auto tol = 1e-9 * (1.0 + std::fabs(fx) + std::fabs(fz) + std::fabs(g.dot(dz)) + f.strong_convexity() * dz.squaredNorm());
         o.convexgap    = (rhs - fz) / (tol * 1e9);
         o.convexOK     = fz >= rhs - tol;
+    }
+    if (!check_grad)
+    {
+        // non-smooth prototypes: wherever the function is differentiable along d (the one-sided difference quotients agree) the
+        // returned subgradient must be the derivative there; near a kink nothing is demanded
+        const auto e  = 1e-6 * std::max(1.0, x.lpNorm<Eigen::Infinity>());
+        y             = x + e * d;
+        const auto fp = f.vgrad(y);
+        y             = x - e * d;
+        const auto fm = f.vgrad(y);
+        const auto dr = (fp - fx) / e, dl = (fx - fm) / e;
+        const auto S  = 1.0 + std::fabs(dl) + std::fabs(dr) + std::fabs(fx) * 1e-6 / e;
+        if (std::isfinite(fp) && std::isfinite(fm) && std::fabs(dr - dl) <= 1e-4 * S)
+        {
+            o.graderr = std::fabs(g.dot(d) - 0.5 * (dl + dr)) / S;
+            o.gradOK  = o.graderr <= 1e-3;
+            o.differentiable = true;
+        }
     }
     if (check_grad)
     {
@@ -533,7 +551,7 @@ int main(int argc, char** argv)
                     continue;
                 }
                 const auto o = generic_oracle(rng, *f, f->smooth());
-                vt::put(vt::J("Generic").s("fn", id).i("dims", f->size()).b("convex", f->convex()).b("smooth", f->smooth()).b("gradOK", o.gradOK)
+                vt::put(vt::J("Generic").s("fn", id).i("dims", f->size()).b("convex", f->convex()).b("smooth", f->smooth()).b("gradOK", o.gradOK).b("differentiable", o.differentiable)
                             .b("convexOK", o.convexOK).b("valueOnlySame", o.valueSame).i("graderr_e12", static_cast<int64_t>(std::min(o.graderr * 1e12, 2e9)))
                             .i("case", kase));
             }
